@@ -24,3 +24,13 @@ NOT_APPLICABLE = {
 for _p in ["C01", "C02", "C03", "C04", "C05", "C06", "C08", "C09", "C10", "C11", "C12", "C13", "C14", "C15", "C17",
            "C18", "C19", "C20"]:
     NOT_APPLICABLE.setdefault(_p, _PENDING)
+
+register(
+    "C04",
+    modules=["contracts.c16", "contracts.node_getters"],
+    level="proof",
+    explanation="occupancy predicates proved exact for all heaps; segment obligations and lemma Inv4 (see obligations)",
+    trusted=["TestNode.bridged_form summarised as a pure string function of the node"],
+    undecided_clauses=["behaviour after a test overruns its timeout (excluded by the property itself)"],
+)
+LEVEL_TEXT["C04"] = "in progress"
